@@ -204,8 +204,15 @@ fn metachar(s: &str) -> bool {
     s.is_empty() || s == "NULL" || edge_ws(s) || s.chars().any(|c| matches!(c, ',' | '\'' | '"' | '\n' | '\r' | '\\' | ';' | '(' | ')' | '\t')) || s.contains("--")
 }
 
+/// the values the property names explicitly get a third of the draws
+const CORE_POOL: &[&str] = &["a", "", "NULL", "it's", "'); DROP TABLE other; --", "a,b", "say \"hi\"", "line1\nline2"];
+
 fn gen_str(t: &mut Tape, allow: &dyn Fn(&str) -> bool) -> String {
-    let pool: Vec<&str> = STR_POOL.iter().copied().filter(|s| allow(s)).collect();
+    let core = t.chance(1, 3);
+    let mut pool: Vec<&str> = if core { CORE_POOL } else { STR_POOL }.iter().copied().filter(|s| allow(s)).collect();
+    if pool.is_empty() {
+        pool.push("a");
+    }
     let a = pool[t.below(pool.len())].to_string();
     if t.chance(1, 6) {
         let b = pool[t.below(pool.len())];
@@ -708,6 +715,9 @@ fn show_out(o: &LineOut) -> String {
 struct Expect {
     /// rows that must be added
     required: Vec<DRow>,
+    /// index (in the file) of the record behind each required row
+    req_rec: Vec<usize>,
+    opt_rec: Vec<usize>,
     /// rows that may be added (records with nested JSON values: stored as JSON text or skipped)
     optional: Vec<DRow>,
     /// some record cannot be mapped onto the table (unknown / duplicate key): the import may refuse the whole
@@ -757,7 +767,7 @@ fn csv_value(ty: Ty, text: &str) -> Option<V> {
 }
 
 fn expect_csv(def: &TableDef, file_text: &str, intended: &CsvFile) -> Expect {
-    let mut e = Expect { required: vec![], optional: vec![], refusal_allowed: false, harness: None };
+    let mut e = Expect { required: vec![], req_rec: vec![], opt_rec: vec![], optional: vec![], refusal_allowed: false, harness: None };
     let recs = match csvfmt::read(file_text) {
         Ok(r) => r,
         Err(m) => {
@@ -772,11 +782,21 @@ fn expect_csv(def: &TableDef, file_text: &str, intended: &CsvFile) -> Expect {
         e.harness = Some(format!("RFC 4180 reader/writer disagree: wrote {:?}, read {:?}", want, recs));
         return e;
     }
+    // self-check: the `csv` crate (default RFC 4180 dialect) reads the same records
+    let mut rd = csv::ReaderBuilder::new().has_headers(false).flexible(true).from_reader(file_text.as_bytes());
+    let third: Result<Vec<Vec<String>>, csv::Error> = rd.records().map(|r| r.map(|rec| rec.iter().map(|f| f.to_string()).collect())).collect();
+    match third {
+        Ok(t) if t == recs => {}
+        other => {
+            e.harness = Some(format!("harness RFC 4180 reader and the csv crate disagree on {:?}: harness {:?}, csv crate {:?}", file_text, recs, other));
+            return e;
+        }
+    }
     let Some(map) = map_keys(def, &recs[0]) else {
         e.refusal_allowed = true;
         return e;
     };
-    for r in &recs[1..] {
+    for (ri, r) in recs[1..].iter().enumerate() {
         let mut row = vec![V::Null; def.cols.len()];
         for (f, &ci) in r.iter().zip(map.iter()) {
             match csv_value(def.cols[ci].ty, f) {
@@ -788,12 +808,13 @@ fn expect_csv(def: &TableDef, file_text: &str, intended: &CsvFile) -> Expect {
             }
         }
         e.required.push(dbg_row(&row));
+        e.req_rec.push(ri);
     }
     e
 }
 
 fn expect_json(def: &TableDef, file_text: &str, intended: &JsonFile) -> Expect {
-    let mut e = Expect { required: vec![], optional: vec![], refusal_allowed: false, harness: None };
+    let mut e = Expect { required: vec![], req_rec: vec![], opt_rec: vec![], optional: vec![], refusal_allowed: false, harness: None };
     let parsed: serde_json::Value = match serde_json::from_str(file_text) {
         Ok(v) => v,
         Err(m) => {
@@ -809,7 +830,7 @@ fn expect_json(def: &TableDef, file_text: &str, intended: &JsonFile) -> Expect {
         e.harness = Some("JSON reader/writer disagree on the number of records".into());
         return e;
     }
-    for (obj, want) in arr.iter().zip(intended.records.iter()) {
+    for (ri, (obj, want)) in arr.iter().zip(intended.records.iter()).enumerate() {
         let Some(obj) = obj.as_object() else {
             e.harness = Some("generated JSON record is not an object".into());
             return e;
@@ -869,74 +890,137 @@ fn expect_json(def: &TableDef, file_text: &str, intended: &JsonFile) -> Expect {
         }
         if nested {
             e.optional.push(dbg_row(&row));
+            e.opt_rec.push(ri);
         } else {
             e.required.push(dbg_row(&row));
+            e.req_rec.push(ri);
         }
     }
     e
 }
 
 // ---------------------------------------------------------------------------------------------
-// triggers of recorded findings present in a case (first present one names the signature)
+// triggers of recorded findings present in a case
 
-fn csv_triggers(def: &TableDef, f: &CsvFile) -> Vec<&'static str> {
-    let mut v = Vec::new();
+/// Input features that are the triggers of recorded findings. `file`: features whose effect is file-wide
+/// (the import is refused or every row is affected); `rec[i]`: features of record i (affect that record only).
+struct Triggers {
+    file: Vec<&'static str>,
+    rec: Vec<Vec<&'static str>>,
+}
+
+const SIG_ORDER: &[&str] = &[
+    I_CSV_QHEADER,
+    I_CSV_QCOMMA,
+    I_CSV_QNEWLINE,
+    I_CSV_QKEPT,
+    I_CSV_TYPED,
+    I_CSV_EMPTY_TYPED,
+    I_CSV_TRIM,
+    I_CSV_ODDCOL,
+    I_JSON_LATERKEY,
+    I_JSON_TYPED,
+    I_JSON_STRNULL,
+    I_JSON_ODDCOL,
+];
+
+impl Triggers {
+    /// candidates for a failure that involves the given records (None = cannot be narrowed down: all records)
+    fn candidates(&self, records: Option<&[usize]>) -> Vec<&'static str> {
+        let mut c: Vec<&'static str> = self.file.clone();
+        match records {
+            Some(ix) => {
+                for &i in ix {
+                    if let Some(r) = self.rec.get(i) {
+                        c.extend(r.iter().copied());
+                    }
+                }
+            }
+            None => c.extend(self.rec.iter().flatten().copied()),
+        }
+        let mut out: Vec<&'static str> = SIG_ORDER.iter().copied().filter(|s| c.contains(s)).collect();
+        out.dedup();
+        out
+    }
+}
+
+/// The signature of a failure: the first candidate trigger that is recorded as open, else the first candidate,
+/// else `unclassified`.
+fn pick_sig(cands: &[&'static str], fallback: String) -> String {
+    if let Some(s) = cands.iter().find(|s| vcore::kf::is_open_global(s)) {
+        return s.to_string();
+    }
+    cands.first().map(|s| s.to_string()).unwrap_or(fallback)
+}
+
+fn csv_triggers(def: &TableDef, f: &CsvFile) -> Triggers {
+    let mut file = Vec::new();
     let keys: Vec<String> = f.header.iter().map(|h| h.text.clone()).collect();
     let map = map_keys(def, &keys);
     let single = f.header.len() == 1;
     if f.header.iter().any(|h| h.is_enclosed(single)) {
-        v.push(I_CSV_QHEADER);
+        file.push(I_CSV_QHEADER);
     }
+    // a comma / line break inside a quoted field derails the line-and-comma splitter for the whole file
     let fields = || f.records.iter().flat_map(|r| r.iter());
     if fields().any(|x| x.text.contains(',')) {
-        v.push(I_CSV_QCOMMA);
+        file.push(I_CSV_QCOMMA);
     }
     if fields().any(|x| has_nl(&x.text)) {
-        v.push(I_CSV_QNEWLINE);
-    }
-    if fields().any(|x| x.is_enclosed(single)) {
-        v.push(I_CSV_QKEPT);
-    }
-    if let Some(map) = &map {
-        let typed = |pred: &dyn Fn(Ty, &str) -> bool| f.records.iter().any(|r| r.iter().zip(map.iter()).any(|(x, &ci)| pred(def.cols[ci].ty, &x.text)));
-        if typed(&|ty, s| ty.strict_typed() && !s.is_empty()) {
-            v.push(I_CSV_TYPED);
-        }
-        if typed(&|ty, s| ty != Ty::Varchar && s.is_empty()) {
-            v.push(I_CSV_EMPTY_TYPED);
-        }
-    }
-    if fields().any(|x| edge_ws(&x.text)) {
-        v.push(I_CSV_TRIM);
+        file.push(I_CSV_QNEWLINE);
     }
     if let Some(map) = &map {
         if !f.records.is_empty() && map.iter().any(|&ci| def.cols[ci].delimited) {
-            v.push(I_CSV_ODDCOL);
+            file.push(I_CSV_ODDCOL);
         }
     }
-    v
+    let mut rec = Vec::new();
+    for r in &f.records {
+        let mut v = Vec::new();
+        if r.iter().any(|x| x.is_enclosed(single)) {
+            v.push(I_CSV_QKEPT);
+        }
+        if let Some(map) = &map {
+            let any = |pred: &dyn Fn(Ty, &str) -> bool| r.iter().zip(map.iter()).any(|(x, &ci)| pred(def.cols[ci].ty, &x.text));
+            if any(&|ty, s| ty.strict_typed() && !s.is_empty()) {
+                v.push(I_CSV_TYPED);
+            }
+            if any(&|ty, s| ty != Ty::Varchar && s.is_empty()) {
+                v.push(I_CSV_EMPTY_TYPED);
+            }
+        }
+        if r.iter().any(|x| edge_ws(&x.text)) {
+            v.push(I_CSV_TRIM);
+        }
+        rec.push(v);
+    }
+    Triggers { file, rec }
 }
 
-fn json_triggers(def: &TableDef, f: &JsonFile) -> Vec<&'static str> {
-    let mut v = Vec::new();
+fn json_triggers(def: &TableDef, f: &JsonFile) -> Triggers {
+    let mut file = Vec::new();
     let unmappable = |r: &Vec<(String, JVal)>| {
         let keys: Vec<String> = r.iter().map(|(k, _)| k.clone()).collect();
         map_keys(def, &keys).is_none()
     };
     if f.records.iter().skip(1).any(unmappable) {
-        v.push(I_JSON_LATERKEY);
+        file.push(I_JSON_LATERKEY);
     }
-    let members = || f.records.iter().flat_map(|r| r.iter());
-    if members().any(|(k, x)| matches!(x, JVal::Int(_) | JVal::Num(_) | JVal::Bool(_)) && def.cols.iter().any(|c| c.named_by(k) && c.ty.strict_typed())) {
-        v.push(I_JSON_TYPED);
+    let mut rec = Vec::new();
+    for r in &f.records {
+        let mut v = Vec::new();
+        if r.iter().any(|(k, x)| matches!(x, JVal::Int(_) | JVal::Num(_) | JVal::Bool(_)) && def.cols.iter().any(|c| c.named_by(k) && c.ty.strict_typed())) {
+            v.push(I_JSON_TYPED);
+        }
+        if r.iter().any(|(_, x)| matches!(x, JVal::Str(s) if s == "NULL")) {
+            v.push(I_JSON_STRNULL);
+        }
+        if r.iter().any(|(k, _)| def.cols.iter().any(|c| c.delimited && c.named_by(k))) {
+            v.push(I_JSON_ODDCOL);
+        }
+        rec.push(v);
     }
-    if members().any(|(_, x)| matches!(x, JVal::Str(s) if s == "NULL")) {
-        v.push(I_JSON_STRNULL);
-    }
-    if members().any(|(k, _)| def.cols.iter().any(|c| c.delimited && c.named_by(k))) {
-        v.push(I_JSON_ODDCOL);
-    }
-    v
+    Triggers { file, rec }
 }
 
 // ---------------------------------------------------------------------------------------------
@@ -1033,29 +1117,39 @@ fn run_import(case: &Case, obs: &mut Obs) -> Verdict {
     let pre_c: Vec<DRow> = pre.iter().map(&canon).collect();
     let required: Vec<DRow> = exp.required.iter().map(&canon).collect();
     let optional: Vec<DRow> = exp.optional.iter().map(&canon).collect();
-    let problem: Option<(&str, String)> = match msub(&actual_c, &pre_c) {
-        Err(lost) => Some(("preexisting_rows_lost", format!("rows present before the import are gone:\n{}", show_rows(&lost)))),
+    // (shape, text, records involved: Some(indexes) when the failure can be pinned on records of the file)
+    let problem: Option<(&str, String, Option<Vec<usize>>)> = match msub(&actual_c, &pre_c) {
+        Err(lost) => Some(("preexisting_rows_lost", format!("rows present before the import are gone:\n{}", show_rows(&lost)), Some(vec![]))),
         Ok(added) => {
             if exp.refusal_allowed && added.is_empty() {
                 None
             } else {
                 match msub(&added, &required) {
-                    Err(missing) => Some(("missing_rows", format!("records of the file that are not in the table:\n{}rows added by the import:\n{}", show_rows(&missing), show_rows(&added)))),
+                    Err(missing) => {
+                        let involved: Vec<usize> = required.iter().zip(exp.req_rec.iter()).filter(|(r, _)| missing.contains(r)).map(|(_, &i)| i).collect();
+                        Some(("missing_rows", format!("records of the file that are not in the table:\n{}rows added by the import:\n{}", show_rows(&missing), show_rows(&added)), Some(involved)))
+                    }
                     Ok(extra) => match msub(&optional, &extra) {
                         Ok(_) => None,
-                        Err(alien) => Some(("extra_rows", format!("rows in the table that are not records of the file:\n{}records of the file:\n{}", show_rows(&alien), show_rows(&required)))),
+                        // rows that are no record of the file: file-wide triggers, or a mangled optional record
+                        Err(alien) => {
+                            let involved: Vec<usize> = optional.iter().zip(exp.opt_rec.iter()).filter(|(r, _)| !extra.contains(r)).map(|(_, &i)| i).collect();
+                            Some((
+                                "extra_rows",
+                                format!("rows in the table that are not records of the file:\n{}records of the file:\n{}{}", show_rows(&alien), show_rows(&required), show_rows(&optional)),
+                                Some(involved),
+                            ))
+                        }
                     },
                 }
             }
         }
     };
-    let Some((shape, text)) = problem else {
+    let Some((shape, text, involved)) = problem else {
         return Verdict::Pass;
     };
-    let sig = match triggers.first() {
-        Some(t) => t.to_string(),
-        None => format!("{}.unclassified.{}", relname, shape),
-    };
+    let cands = if shape == "preexisting_rows_lost" { vec![] } else { triggers.candidates(involved.as_deref()) };
+    let sig = pick_sig(&cands, format!("{}.unclassified.{}", relname, shape));
     Verdict::fail(sig, ctx(&format!("[{}] {}", shape, text)))
 }
 
@@ -1184,8 +1278,7 @@ fn run_roundtrip(case: &Case, obs: &mut Obs) -> Verdict {
             eol: Eol::Lf,
             final_eol: true,
         };
-        let trig = csv_triggers(def, &as_file);
-        let sig = trig.first().map(|s| s.to_string()).unwrap_or_else(|| "roundtrip_csv.rows_differ".into());
+        let sig = pick_sig(&csv_triggers(def, &as_file).candidates(None), "roundtrip_csv.rows_differ".into());
         Verdict::fail(sig, detail("rows differ after the round trip", &rows_now, &iout_now))
     } else {
         let parsed: Option<Vec<serde_json::Map<String, serde_json::Value>>> = serde_json::from_str(&file_text).ok();
@@ -1394,8 +1487,8 @@ impl Check for C31 {
     }
     fn cases(&self, tier: Tier) -> u64 {
         match tier {
-            Tier::Quick => 60_000,
-            Tier::Thorough => 1_500_000,
+            Tier::Quick => 40_000,
+            Tier::Thorough => 1_200_000,
         }
     }
     fn tape_len(&self, _t: Tier) -> usize {
@@ -1408,6 +1501,10 @@ impl Check for C31 {
         self.build_case(t, cfg)
     }
     fn fixed_cases(&self, _tier: Tier) -> Vec<Case> {
+        if std::env::var("VERIF_C31_NO_FIXED").is_ok() {
+            // dev aid for sensitivity experiments: let only the generator speak
+            return vec![];
+        }
         let other = TableData {
             def: TableDef { name: "other".into(), cols: vec![Col { name: "x".into(), ty: Ty::Int, delimited: false }, vc("y")] },
             rows: vec![vec![V::Int(1), V::Varchar("keep".into())]],
